@@ -163,7 +163,7 @@ save watermark (`save_seq_num_func` set). -/
 def protect (f : Nat) (s : Snd) : Snd × POut :=
   let piv := s.seq
   let seq' := (s.seq + 1) % 2 ^ 64              -- ctx->sender_context->seq++
-  if seq' ≥ SEQ_MAX then ({ s with seq := seq' }, { piv := none, saved := none })
+  if seq' > SEQ_MAX then ({ s with seq := seq' }, { piv := none, saved := none })   -- `>` since fix 4a03609 (SEQ_MAX - 1 can be used)
   else if seq' > s.next then
     let n := (s.next + effFreq f) % 2 ^ 64
     ({ seq := seq', next := n }, { piv := some piv, saved := some n })
